@@ -484,6 +484,8 @@ func writeEvidence(prop string, tier int, seed int64, results []*HarnessResult, 
 			"decisions": r.Stats.Decisions, "max_depth": r.Stats.MaxDepth, "instructions": r.Stats.Instr, "wall_s": round1(r.WallS),
 			"confirmed_violations": cands, "spurious_candidates": len(r.Spurious), "witnesses_validated": r.WitnessOK,
 			"opaque_debug_lookups": r.Opaque, "notes": r.Notes, "twin": r.Spec.Twin,
+			"cross_solver": map[string]int{"assertion_queries_rechecked": r.Cross[0], "agree": r.Cross[1], "disagree": r.Cross[2], "unknown": r.Cross[3]},
+			"one_shot_retries_of_unknown": r.Retried,
 		})
 	}
 	if states == 0 {
